@@ -65,7 +65,7 @@ func c08BytesFramesPart(thorough bool) c08PartSpec {
 		chunks[i] = func(c *c08Ctx) {
 			c08ShortStrings(b0, c08MaxLen(c.thorough), func(b []byte) {
 				for ci, g := range cfgs {
-					if len(b) == 3 && g.dg != g.rsa || g.dg != g.af && len(b) == 3 {
+					if len(b) == 3 && (g.dg != g.rsa || g.dg != g.af) {
 						continue // 3-byte strings: all extensions on / all off only
 					}
 					o := c.checkFrameBytes(g, b, c08Versions[ci%2])
@@ -457,7 +457,10 @@ func c08TPValuesPart(thorough bool) c08PartSpec {
 		bc(func(p *TransportParameters) *protocol.ByteCount { return &p.InitialMaxData }),
 		sn(func(p *TransportParameters) *protocol.StreamNum { return &p.MaxBidiStreamNum }),
 		sn(func(p *TransportParameters) *protocol.StreamNum { return &p.MaxUniStreamNum }),
-		{len(acl), func(p *TransportParameters, i int) (bool, string) { p.ActiveConnectionIDLimit = acl[i]; return true, "" }},
+		{len(acl), func(p *TransportParameters, i int) (bool, string) {
+			p.ActiveConnectionIDLimit = acl[i]
+			return true, ""
+		}},
 		{len(dgs), func(p *TransportParameters, i int) (bool, string) {
 			p.MaxDatagramFrameSize = protocol.ByteCount(dgs[i])
 			return true, ""
@@ -543,4 +546,3 @@ func c08TPTablePart(thorough bool) c08PartSpec {
 	n := len(table)
 	return c08PartSpec{chunks: chunks, bound: fmt.Sprintf("table of %d raw parameters: all %d sequences of <= 3 entries x 2 perspectives x {alone, + mandatory parameters}", n, 1+n+n*n+n*n*n)}
 }
-
